@@ -2,7 +2,7 @@
    Only the pure part is proved here: the WHERE criteria built by construct_batchload_criteria_list select exactly the
    rows whose key is one of the batch keys, in all four shapes ('=' per column, IN, row-value IN, OR of ANDs).  The rest of
    the property (merging of the fetched rows into partially loaded objects and collections) is checked differentially. *)
-Require Import PonyV.Base.PyBase PonyV.Model.C23Batch PonyV.Proofs.C23Proofs.
+Require Import PonyV.Base.PyBase PonyV.Model.C23Batch PonyV.Model.C23SetData PonyV.Gen.ContainsOrder PonyV.Proofs.C23Proofs PonyV.Proofs.C23SetProofs.
 
 Theorem C23_batch_criteria : forall (args : list (list Z)) (row : nat -> Z) (ncols start : nat) (keys : list (list Z)),
   (forall i, (i < length keys)%nat -> nth (i + start) args [] = nth i keys []) ->     (* the batch occupies args[start ..] *)
@@ -11,6 +11,17 @@ Theorem C23_batch_criteria : forall (args : list (list Z)) (row : nat -> Z) (nco
   sem_all args row (construct ncols (length keys) start row_value_syntax) = true <-> In (map row (seq 0 ncols)) keys.
 Proof. exact batch_criteria. Qed.
 Print Assumptions C23_batch_criteria.
+
+(* Membership answered from memory (the early-exit checks of SetInstance.__contains__ in the order found in the source,
+   Gen/ContainsOrder.v): for every SetData (partially loaded or not, with or without a negative cache) and every item, after
+   an in-session add (from either side) the answer is never False, after a remove never True; None = the database is asked. *)
+Theorem C23_contains_after_add : forall sd x, contains_local contains_checks (sd_add sd x) x <> Some false.
+Proof. exact contains_after_add. Qed.
+Print Assumptions C23_contains_after_add.
+
+Theorem C23_contains_after_remove : forall sd x, contains_local contains_checks (sd_remove sd x) x <> Some true.
+Proof. exact contains_after_remove. Qed.
+Print Assumptions C23_contains_after_remove.
 
 Example C23_nonvacuous :
   sem_all [[1; 2]; [3; 4]; [5; 6]]%Z (fun j => match j with O => 5 | _ => 6 end)%Z (construct 2 2 1 false) = true /\
